@@ -34,7 +34,7 @@ type Rec struct {
 	D    int64   `json:"d"` // secondary int field for non-key predicates
 	Pad  int     `json:"pad,omitempty"`
 	// Extra is the ZSON text of an additional field f ("" = absent).
-	Extra string `json:"f,omitempty"`
+	Extra string `json:"extra,omitempty"`
 }
 
 // PoolSpec is the harness's description of a pool.
